@@ -299,7 +299,7 @@ Fixpoint sop_trace sort_rows run_size pk (s : sorter) (ops : list sop) : list (b
 Fixpoint insert_row (pk : list nat) (r : row) (l : list row) : list row :=
   match l with
   | [] => [r]
-  | x :: l' => if string_slice_is_less pk r x then r :: l else x :: insert_row pk r l'
+  | x :: l' => if string_slice_is_less pk x r then x :: insert_row pk r l' else r :: l
   end.
 Definition isort_rows (pk : list nat) (l : list row) : list row :=
   fold_right (insert_row pk) [] l.
